@@ -180,6 +180,9 @@ class Laws:
                 variants.append(("one_element", _mutate_leaf(tree, k, "element", rng), False))
             variants.append(("shape_only", _mutate_leaf(tree, k, "shape", rng), False))
             variants.append(("dtype_only", _mutate_leaf(tree, k, "dtype", rng), None))  # judged by the numpy oracle
+            if lv[k].size > 0:
+                # other dtype AND a value that a cast to the first dtype would destroy (x + 0.5, or 2 for a bool)
+                variants.append(("dtype_and_fraction", _mutate_leaf(tree, k, "dtype_fraction", rng), False))
         self.ev("eq_reflexive")
         try:
             if pt.is_equal_pytree(tree, tree) is not True:
@@ -255,6 +258,14 @@ def _mutate_leaf(tree, k, how, rng):
             a[idx] = a[idx] + 1
     elif how == "shape":
         a = np.concatenate([a.reshape((1,) + a.shape), a.reshape((1,) + a.shape)], 0) if a.ndim == 0 or True else a
+    elif how == "dtype_fraction":
+        idx = tuple(int(rng.integers(0, s)) for s in a.shape)
+        if a.dtype == np.bool_:
+            a = a.astype(np.int32)
+            a[idx] = 2 if a[idx] else 3
+        else:
+            a = a.astype(np.float64)
+            a[idx] = a[idx] + 0.5
     else:
         a = a.astype(np.float64 if a.dtype != np.float64 else np.int64)
     flat = list(flat)
